@@ -25,6 +25,14 @@ from .model import AnalysisError, const_value, src
 from .struct import call_name
 
 
+class UndecidedBranch(AnalysisError):
+    """A branch whose test is a run-time predicate the class model does not decide: the driver may explore both arms (one run per choice)."""
+
+    def __init__(self, test):
+        super().__init__(f"branch on `{src(test)}` cannot be decided for the window class")
+        self.test = test
+
+
 @dataclass
 class Event:
     lo: Poly
@@ -226,6 +234,13 @@ class Extractor:
         if isinstance(s, ast.Assign) and len(s.targets) == 1 and isinstance(s.value, ast.IfExp):
             d = self.decide(s.value.test)
             if d is None:
+                # neither arm is one of the vectors this model tracks: the targets become unknown scalars (a later USE of them as a tracked vector is what fails)
+                if self.value(s.value.body) is None and self.value(s.value.orelse) is None:
+                    for n in ast.walk(s.targets[0]):
+                        if isinstance(n, ast.Name):
+                            self.arr.pop(n.id, None)
+                            self.ev.env.pop(n.id, None)
+                    return
                 raise AnalysisError(f"conditional value `{src(s.value)[:60]}` cannot be decided for the window class")
             s = ast.copy_location(ast.Assign(targets=s.targets, value=s.value.body if d else s.value.orelse), s)
         if isinstance(s, ast.Assign) and len(s.targets) > 1 and all(isinstance(t, ast.Name) for t in s.targets):
@@ -268,7 +283,7 @@ class Extractor:
         if isinstance(s, ast.If):
             d = self.decide(s.test)
             if d is None:
-                raise AnalysisError(f"branch on `{src(s.test)}` cannot be decided for the window class")
+                raise UndecidedBranch(s.test)
             self.run(s.body if d else s.orelse)
             return
         if isinstance(s, ast.For):
